@@ -166,6 +166,8 @@ class ServerWorld:
         self.wlog = []      # write callback invocations (index, sub, bytes)
         self.cb_objects = {}    # bytearrays owned by the application and handed out by the read callback
         self.rlog = 0
+        self.refuse_once = set()    # (index, sub): the application's read callback refuses the next read of this entry (raises SdoAbortedError) once
+        self.sibling_hook = None    # (key A, key B, bytes): when A is written, the write callback writes B through the node's own SDO API, once
         self.local.add_write_callback(self._on_write)
         self.local.add_read_callback(self._on_read)
         for e in entries:
@@ -174,9 +176,18 @@ class ServerWorld:
 
     def _on_write(self, index, subindex, od, data):
         self.wlog.append((index, subindex, bytes(data)))
+        h = self.sibling_hook
+        if h is not None and h[0] == (index, subindex):
+            # an application callback that calls back into the library while the server is still handling the download
+            self.sibling_hook = None
+            self.local.sdo.download(h[1][0], h[1][1], h[2])
 
     def _on_read(self, index, subindex, od):
         self.rlog += 1
+        if (index, subindex) in self.refuse_once:
+            self.refuse_once.discard((index, subindex))
+            from canopen.sdo.exceptions import SdoAbortedError
+            raise SdoAbortedError(0x08000022)
         e = self.entries.get((index, subindex))
         if e is not None and e.cb is not None:
             # hand the application value over as python value, or - for byte
